@@ -1,0 +1,15 @@
+// Copyright 2022-2026 Sauce Labs Inc., all rights reserved.
+//
+// This Source Code Form is subject to the terms of the Mozilla Public
+// License, v. 2.0. If a copy of the MPL was not distributed with this
+// file, You can obtain one at https://mozilla.org/MPL/2.0/.
+
+//go:build !verif
+
+package forwarder
+
+import "net"
+
+func verifListen() func(address string) (net.Listener, error) { return nil }
+
+func verifDial() dialContextFunc { return nil }
